@@ -183,6 +183,98 @@ OP(vdf_save_load)
 }
 OP(vd_load_bad)   { NEED(F->vdo); return vnadata_load(F->vdo, F->path_bad); }
 OP(vd_load_s2p)   { NEED(F->vd); return vnadata_load(F->vd, F->path_s2p); }
+/*
+ * arguments that alias storage the library owns: what a getter returned is
+ * handed straight back to a setter of the same object (re-save under the
+ * name it was loaded from, replace a calibration under the name it has,
+ * write back a vector that was read)
+ */
+OP(alias_addcal_name)
+{
+    NEED(F->vnpS);
+    const char *name = vnacal_get_name(F->vcp, F->ciA);
+    if (name == NULL)
+	return -1;
+    int ci = vnacal_add_calibration(F->vcp, name, F->vnpS);
+    if (ci < 0)
+	return -1;
+    /* the calibration must still be found under the text it had */
+    return vnacal_find_calibration(F->vcp, "calA") == ci ? 0 : -1;
+}
+OP(alias_cal_resave)
+{
+    NEED(F->vcp2);
+    const char *fn = vnacal_get_filename(F->vcp2);
+    if (fn == NULL)
+	return -1;
+    if (vnacal_save(F->vcp2, fn) != 0)
+	return -1;
+    fn = vnacal_get_filename(F->vcp2);
+    return fn != NULL && strcmp(fn, F->path_cal) == 0 ? 0 : -1;
+}
+OP(alias_vd_vectors)
+{
+    NEED(F->vd);
+    int rc = 0;
+    const double *fv = vnadata_get_frequency_vector(F->vd);
+    if (fv != NULL)
+	rc |= vnadata_set_frequency_vector(F->vd, fv);
+    const double complex *zv = vnadata_get_z0_vector(F->vd);
+    if (zv != NULL)
+	rc |= vnadata_set_z0_vector(F->vd, zv);
+    for (int f = 0; f < vnadata_get_frequencies(F->vd); ++f) {
+	const double complex *m = vnadata_get_matrix(F->vd, f);
+	if (m != NULL)
+	    rc |= vnadata_set_matrix(F->vd, f, m);
+    }
+    return rc ? -1 : 0;
+}
+OP(alias_vdf_vectors)
+{
+    NEED(F->vdf);
+    int rc = 0;
+    for (int f = 0; f < vnadata_get_frequencies(F->vdf); ++f) {
+	const double complex *zv = vnadata_get_fz0_vector(F->vdf, f);
+	if (zv != NULL)
+	    rc |= vnadata_set_fz0_vector(F->vdf, f, zv);
+    }
+    /* leaving per-frequency mode with a vector that belongs to it */
+    const double complex *z0 = vnadata_get_fz0_vector(F->vdf, 0);
+    if (z0 != NULL)
+	rc |= vnadata_set_z0_vector(F->vdf, z0);
+    return rc ? -1 : 0;
+}
+OP(alias_prop_self)
+{
+    /* a value and a subtree of the tree written back into it */
+    const char *v = vnaproperty_get(F->root, "map.k");
+    if (v != NULL && vnaproperty_set(&F->root, "map.k=%s", v) != 0)
+	return -1;
+    vnaproperty_t *sub = vnaproperty_get_subtree(F->root, "map");
+    if (sub != NULL) {
+	vnaproperty_t **dst = vnaproperty_set_subtree(&F->root, "mapcopy");
+	if (dst == NULL || vnaproperty_copy(dst, sub) != 0)
+	    return -1;
+    }
+    return 0;
+}
+OP(alias_copy_up)
+{
+    /* promote a branch to the root: the source lies inside the destination */
+    vnaproperty_t *sub = vnaproperty_get_subtree(F->root, "map");
+    if (sub == NULL)
+	return -1;
+    return vnaproperty_copy(&F->root, sub);
+}
+OP(alias_copy_down)
+{
+    /* a copy of the whole tree placed into a new slot of itself: the
+       destination lies inside the source */
+    vnaproperty_t **dst = vnaproperty_set_subtree(&F->root, "selfcopy");
+    if (dst == NULL)
+	return -1;
+    return vnaproperty_copy(dst, F->root);
+}
 OP(vp_set_deep)   { return vnaproperty_set(&F->root, "a.b[2].c=1"); }
 OP(vp_del_item)   { return vnaproperty_delete(&F->root, "arr[0]"); }
 OP(vp_del_key)    { return vnaproperty_delete(&F->root, "map"); }
@@ -208,6 +300,9 @@ static const struct { const char *name; op_fn *fn; } ops[] = {
     O(vd_conv_inpl), O(vd_conv_zin), O(vd_set_fz0), O(vdf_set_z0),
     O(vdf_grow), O(vdf_trim), O(vdf_touch), O(vd_add_f), O(vdf_add_f), O(vdf_init), O(vd_init_bad),
     O(vd_save_load), O(vdf_save_load), O(vd_load_bad), O(vd_load_s2p),
+    O(alias_addcal_name), O(alias_cal_resave),
+    O(alias_vd_vectors), O(alias_vdf_vectors), O(alias_prop_self),
+    O(alias_copy_up), O(alias_copy_down),
     O(vp_set_deep), O(vp_del_item), O(vp_del_key), O(vp_scalar_root),
     O(vp_insert), O(vp_copy), O(vp_import), O(vp_bad_lookup),
 };
